@@ -202,6 +202,35 @@ def _mk_api(key):
             pv = c.prev(all_)
             check(nx is (kids[i + 1] if i + 1 < len(kids) else None), sig + '.next_differs_from_walk', (all_, type(node.a).__name__, i))
             check(pv is (kids[i - 1] if i > 0 else None), sig + '.prev_differs_from_walk', (all_, type(node.a).__name__, i))
+        # the same walk started at THIS node, in every `on` mode and under type filters: filtering commutes with walking
+        for flt, pred in ((all_, None), (ast.Name, lambda a_: type(a_) is ast.Name), ({ast.Name, ast.Constant, ast.arg}, lambda a_: type(a_) in (ast.Name, ast.Constant, ast.arg))):
+            for bk in (False, True):
+                full_e = list(node.walk(True if pred else flt, back=bk))
+                full_l = list(node.walk(True if pred else flt, 'leave', back=bk))
+                full_b = list(node.walk(True if pred else flt, 'both', back=bk))
+                if pred is None:
+                    exp_e, exp_l, exp_b = full_e, full_l, full_b
+                    got_e, got_l, got_b = full_e, full_l, full_b
+                else:
+                    exp_e = [f for f in full_e if pred(f.a)]
+                    exp_l = [f for f in full_l if pred(f.a)]
+                    exp_b = [(f, lv) for f, lv in full_b if pred(f.a)]
+                    got_e = list(node.walk(flt, back=bk))
+                    got_l = list(node.walk(flt, 'leave', back=bk))
+                    got_b = list(node.walk(flt, 'both', back=bk))
+                tag = (type(node.a).__name__, 'all' if pred is None else str(flt)[:40], bk)
+                check(list(map(id, got_e)) == list(map(id, exp_e)), sig + '.filtered_walk_differs_from_filtering_the_full_walk', tag)
+                check(list(map(id, got_l)) == list(map(id, exp_l)), sig + '.filtered_leave_walk_differs_from_filtering_the_full_walk', tag)
+                check([(id(f), lv) for f, lv in got_b] == [(id(f), lv) for f, lv in exp_b], sig + '.filtered_both_walk_differs_from_filtering_the_full_walk', tag)
+                check(sorted(map(id, got_l)) == sorted(map(id, got_e)), sig + '.leave_and_enter_yield_different_node_sets', tag)
+                st_ = []
+                for f, lv in got_b:
+                    if not lv:
+                        st_.append(id(f))
+                    else:
+                        check(st_ and st_[-1] == id(f), sig + '.both_not_bracketed_from_node', tag)
+                        st_.pop()
+                check(not st_ and [id(f) for f, lv in got_b if not lv] == list(map(id, got_e)), sig + '.both_enter_order_differs_from_node', tag)
         # paths
         path = root.child_path(node)
         check(root.child_from_path(path) is node, sig + '.child_path_roundtrip', (type(node.a).__name__,))
